@@ -1,5 +1,6 @@
 import Driver.Util
 import MpcVerif.Model.Builders
+import MpcVerif.Model.BuildersHist
 
 namespace Drv.C07
 open Mpc Mpc.Bld Drv
@@ -80,6 +81,59 @@ def buildCircuit (name : String) (gmw pro : Bool) (nx ny nw nz par : Nat) : Opti
 
 def nat! (s : String) : Nat := s.toNat?.getD 0
 
+/-! ### Builder histories on one state (Model/BuildersHist.lean) -/
+
+/-- One call of a history as written by harness/cmd/c07/hist.go:
+`<builder>,<nz>,<par>,<x>,<y>,<w>` with operands `b<k>.<lo>.<len>` or `-`. -/
+structure HStep where
+  name : String
+  nz : Nat
+  par : Nat
+  x : Nat × Nat × Nat
+  y : Nat × Nat × Nat
+  w : Nat × Nat × Nat
+
+def parseSrc (s : String) : Option (Nat × Nat × Nat) :=
+  if s == "-" then some (0, 0, 0) else
+  if !s.startsWith "b" then none else
+  match (s.drop 1).toString.splitOn "." with
+  | [k, lo, len] => some (nat! k, nat! lo, nat! len)
+  | _ => none
+
+def parseStep (s : String) : Option HStep :=
+  match s.splitOn "," with
+  | [b, nz, par, x, y, w] => do
+    let x ← parseSrc x
+    let y ← parseSrc y
+    let w ← parseSrc w
+    if known b then some { name := b, nz := nat! nz, par := nat! par, x := x, y := y, w := w } else none
+  | _ => none
+
+/-- Result width of a call (two result buses for the quotient-and-remainder builders). -/
+def HStep.outWidth (st : HStep) : Nat :=
+  if st.name == "udivmod" || st.name == "udivgold" || st.name == "udivlong" then 2 * st.nz else st.nz
+
+/-- The call of the history: the same generator `build` that the single-call
+ops use, applied to slices of the buses known so far. -/
+def HStep.call (gmw : Bool) (st : HStep) : Call := fun acc => do
+  let r ← build st.name gmw st.par (pick acc st.x.1 st.x.2.1 st.x.2.2) (pick acc st.y.1 st.y.2.1 st.y.2.2)
+    (pick acc st.w.1 st.w.2.1 st.w.2.2) st.nz
+  pure (r.getD [])
+
+def parseHist (inw steps : String) : Option (List Nat × List HStep) := do
+  let st ← (steps.splitOn "|").mapM parseStep
+  some ((inw.splitOn ",").map nat!, st)
+
+/-- `hgr`: the whole history generated on ONE state, then evaluated on the given inputs. -/
+def histLine (gmw pro : Bool) (ws : List Nat) (steps : List HStep) (ins : List String) : String :=
+  let r := runHistory pro ws (steps.map (HStep.call gmw))
+  if (r.2.map List.length) != steps.map HStep.outWidth then "unconnected-or-error" else
+  let outs := r.2.flatten
+  let evals := ins.map fun inb =>
+    let v := r.1.vals (parseBits inb)
+    " | " ++ bitsStr (outs.map fun w => v.getD w false)
+  rawLine r.1 outs ++ String.join evals
+
 /-! ### Validated hypothesis `goldschmidt-estimate-within-one`
 
 The quotient estimate of `NewUDividerGoldschmidtFast` (the Lean generator
@@ -110,8 +164,10 @@ structure EstStat where
   ex    : String := "-"
 
 /-- Evaluate one batch (at most 64 pairs, `b ≠ 0`). -/
-def estBatch (n : Nat) (gs : Array Gate) (qw : Array Nat) (ps : Array (Nat × Nat)) (st : EstStat) : EstStat := Id.run do
-  let mut inp : Array UInt64 := Array.replicate (2 * n) 0
+def estBatch (n : Nat) (gs : Array Gate) (qw : Array Nat) (ps : Array (Nat × Nat)) (st : EstStat)
+    (pre : Array UInt64 := #[]) : EstStat := Id.run do
+  -- `pre`: values of the input wires in front of the two operands (history form: the operands of the earlier divider)
+  let mut inp : Array UInt64 := pre ++ Array.replicate (2 * n) 0
   for i in [0:n] do
     let mut wa : UInt64 := 0
     let mut wb : UInt64 := 0
@@ -119,8 +175,8 @@ def estBatch (n : Nat) (gs : Array Gate) (qw : Array Nat) (ps : Array (Nat × Na
       let p := ps[k]!
       if p.1.testBit i then wa := wa ||| ((1 : UInt64) <<< k.toUInt64)
       if p.2.testBit i then wb := wb ||| ((1 : UInt64) <<< k.toUInt64)
-    inp := inp.set! i wa
-    inp := inp.set! (n + i) wb
+    inp := inp.set! (pre.size + i) wa
+    inp := inp.set! (pre.size + n + i) wb
   let v := evalSliced gs inp
   let mut st := st
   for k in [0:ps.size] do
@@ -168,6 +224,16 @@ def estExhaustive (n : Nat) : String := Id.run do
   if batch.size > 0 then st := estBatch n gs qw batch st
   return s!"n={n} gates={gs.size} estimate_bits={qw.size} pairs={st.pairs} min={st.minD} max={st.maxD} viol={st.viol} ex={st.ex}"
 
+/-- The estimate circuit of a width-`n2` divider built AFTER a complete width-`n1`
+Goldschmidt divider on the same state (a history of two dividers). -/
+def estCircuitHist (n1 n2 : Nat) : St × List Nat :=
+  let s0 := initSt (2 * n1 + 2 * n2) true
+  let r := (do
+    let _ ← goldschmidt (inputWires 0 n1) (inputWires n1 n1) n1 n1
+    let p ← zeroPad (inputWires (2 * n1) n2) (inputWires (2 * n1 + n2) n2)
+    goldEstimate p.1 p.2) s0
+  (r.2, r.1)
+
 def lcg (x : Nat) : Nat := (x * 6364136223846793005 + 1442695040888963407) % 2 ^ 64
 
 /-- Structured operand pairs of width `n`: random values of random bit length,
@@ -205,6 +271,38 @@ def estStructured (n count seed : Nat) : Array (Nat × Nat) := Id.run do
   return out
 
 
+/-- Hypothesis `goldschmidt-estimate-within-one` from a NON-FRESH state: the second
+divider of a history; `count` structured operand pairs of the first divider, for
+each of them all (width ≤ 6) / 512 structured operand pairs of the second. -/
+def estHist (n1 n2 count seed : Nat) : String := Id.run do
+  let (s, qws) := estCircuitHist n1 n2
+  let gs := s.gates
+  let qw := qws.toArray
+  let firsts := (estStructured n1 (count + 2) (seed + 31)).extract 0 count
+  let seconds : Array (Nat × Nat) := if n2 ≤ 6 then Id.run do
+      let mut a : Array (Nat × Nat) := #[]
+      for x in [0:2 ^ n2] do
+        for y in [1:2 ^ n2] do
+          a := a.push (x, y)
+      return a
+    else estStructured n2 512 (seed + 57)
+  let mut st : EstStat := {}
+  for f in firsts do
+    let mut pre : Array UInt64 := #[]
+    for i in [0:n1] do
+      pre := pre.push (if f.1.testBit i then (0 : UInt64) - 1 else 0)
+    for i in [0:n1] do
+      pre := pre.push (if f.2.testBit i then (0 : UInt64) - 1 else 0)
+    let mut batch : Array (Nat × Nat) := #[]
+    for p in seconds do
+      if p.2 != 0 then
+        batch := batch.push p
+        if batch.size == 64 then
+          st := estBatch n2 gs qw batch st pre
+          batch := #[]
+    if batch.size > 0 then st := estBatch n2 gs qw batch st pre
+  return s!"n={n2} after={n1} gates={gs.size} estimate_bits={qw.size} pairs={st.pairs} min={st.minD} max={st.maxD} viol={st.viol} ex={st.ex}"
+
 /-- Ops:
  `gen  <builder> <target> <pro> <nx> <ny> <nw> <nz> <par>`          -> canonical gate list
  `run  <builder> <target> <pro> <nx> <ny> <nw> <nz> <par> <inbits>` -> output bits of the generated circuit
@@ -212,7 +310,11 @@ def estStructured (n count seed : Nat) : Array (Nat × Nat) := Id.run do
  `estexh <n>` / `estrnd <n> <count> <seed>`                           -> Goldschmidt estimate vs floor(a/b): all /
                                                                         structured operand pairs of width n
  `corrstep <old|new> <n> <a> <b> <q>`                                -> quotient and remainder of the Goldschmidt
-                                                                        correction step on the estimate `q` -/
+                                                                        correction step on the estimate `q`
+ `hgr <target> <pro> <inwidths> <calls> <inbits>*`                    -> a HISTORY of builder calls on one state:
+                                                                        canonical gate list ` | ` output bits per input
+ `esthist <n1> <n2> <count> <seed>`                                   -> Goldschmidt estimate of a width-n2 divider built
+                                                                        AFTER a width-n1 divider on the same state -/
 def handle (args : List String) : String :=
   match args with
   | ["gen", b, t, pro, nx, ny, nw, nz, par] =>
@@ -227,6 +329,11 @@ def handle (args : List String) : String :=
     | some (s, outs) =>
       let v := s.vals (parseBits inb)
       bitsStr (outs.map fun w => v.getD w false)
+  | "hgr" :: t :: pro :: inw :: steps :: ins =>
+    match parseHist inw steps with
+    | none => "bad-op"
+    | some (ws, st) => histLine (t == "1") (pro == "1") ws st ins
+  | ["esthist", n1, n2, count, seed] => estHist (nat! n1) (nat! n2) (nat! count) (nat! seed)
   | ["thr", n] => toString (multiplierArrayThreshold (nat! n))
   | ["estexh", n] => estExhaustive (nat! n)
   | ["estrnd", n, count, seed] => estRun (nat! n) (estStructured (nat! n) (nat! count) (nat! seed))
